@@ -255,7 +255,8 @@ class Sky130Walker(h.HierarchyWalker):
             modparams = Sky130GenResParams(w=w, l=l)
 
         elif mod.paramtype == Sky130PrecResParams:
-            l = default_prec_res_L[mod.name]
+            # The width of these devices is fixed; a given length is used, else the default.
+            l = params.l if params.l is not None else default_prec_res_L[mod.name]
 
             modparams = Sky130PrecResParams(l=l)
 
